@@ -262,8 +262,19 @@ def _oracle_trace(case, obs):
     if obs['_bad_draws']:
         out.append(('draw_contract', obs['_bad_draws'][0]))
     res = obs['result']
-    if isinstance(res, dict) and 'err' in res and res['err'] not in ('NotImplementedError', 'VotingSystemError'):
+    # more seats awarded than asked for (distributor form, multi-seat over-award): outside this property (seat
+    # totals are C08's subject); the run is then followed only up to that state
+    seats_run = sum(k for _, k in (case.get('prev') or [])) if case.get('form', 'selector') != 'selector' else 0
+    overshoot = seats_run > case['n']
+    for rec in obs['_detail']:
+        if 'err' not in rec:
+            seats_run += sum(k for _, k in rec['elected'])
+            overshoot = overshoot or seats_run > case['n']
+    if (isinstance(res, dict) and 'err' in res and res['err'] not in ('NotImplementedError', 'VotingSystemError')
+            and not overshoot):
         out.append(('unexpected_error', f"{res['err']}: {obs.get('_msg')}"))
+    if overshoot:
+        _tag(case, 'seat_overshoot_out_of_scope')
     init = obs['init']
     if isinstance(init, dict):
         out.append(('unexpected_error', 'initial_allocation: ' + str(init.get('err'))))
@@ -295,7 +306,7 @@ def _oracle_trace(case, obs):
             out.append(('count_not_from_previous_state', where))
         if dict(rec['prev']) != prev:
             out.append(('seat_bookkeeping', f"{where}: prev_gains {rec['prev']} expected {prev}"))
-        if 'err' in rec:
+        if 'err' in rec or sum(prev.values()) > case['n']:
             break
         _check_count(case, state, prev, rec, out, where)
         for c, k in rec['elected']:
@@ -593,7 +604,7 @@ def _directed(rng):
 def generate(rng, tier):
     for c in _directed(rng):
         yield c
-    N = 500 if tier == 'quick' else 12000
+    N = 2500 if tier == "quick" else 40000
     for _ in range(N):
         r = rng.random()
         if r < 0.62:
